@@ -19,6 +19,8 @@ BAD_CODES = [
 ILL_FORMED = [
     ("undeclared statement", "s(a).ac(a,neg(b))."),
     ("undeclared statement", "s(a).s(b).ac(a,b).ac(b,or(a,zz))."),
+    ("condition for an undeclared statement", "ac(a,c(v))."),
+    ("condition for an undeclared statement", "s(a).s(b).ac(x,c(f)).ac(a,c(v)).ac(b,c(f))."),
 ]
 
 
@@ -340,6 +342,7 @@ def overlap_worker(server_bin, spec):
         svc.stub.mode = "defer_bg"
         c17.EMPTY = w.snapshot()
         c17.overlap(w, stats)
+        c17.overlap_coinciding_keys(w, stats)
         svc.check()
     except MachineryError as e:
         res = {"ok": False, "machinery": str(e)}
@@ -403,7 +406,7 @@ def worker(server_bin, spec):
                     continue
                 ex.linear(1000 + idx, f31(idx), ("Naive", "Hybrid")[idx % 2], [(k + idx) % 6 for k in range(6)])
         # labels: quoted with blanks / characters biodivine reserves, sorting-sensitive, keyword-like
-        label_sets = [["a b", "x&y"], ["10", "9"], ["and", "or"], ["q(1)", "p|r"], ["\u00fc", "z"], ["s", "ac"]]
+        label_sets = [["a b", "x&y"], ["10", "9"], ["and", "or"], ["q(1)", "p|r"], ["\u00fc", "z"], ["s", "ac"], ["a b", "a_20_b"], ["x(", "x_28_"]]
         for li, nm in enumerate(label_sets):
             for ti, tts in enumerate([(6, 9), (0xe, 0x1), (0x5, 0xc), (0x8, 0x6)]):
                 j = li * 4 + ti
